@@ -30,6 +30,7 @@ def run(prog, R, tier="quick", only_rule=None):
     c05.c05a(prog, R, rid="C04.e")
     # a failed operation must not delete files the (still current) version names, or the next reopen fails
     c05.c05c(prog, R, rid="C04.f")
+    c04g(prog, R)
 
 
 def c04a(prog, R, rid="C04.a"):
@@ -86,7 +87,29 @@ def c04a(prog, R, rid="C04.a"):
     want = ["writer.write_u64(table.id())", "writer.write_u128(table.checksum().into_u128())", "writer.write_u64(table.global_seqno())"]
     r.check(all(w in calls for w in want), "v<N> tables|entry = (table.id(), checksum, table.global_seqno())",
             "a table entry is written from other accessors than id / checksum / global_seqno", "", str(calls)[:300])
-    r.floor(10)
+    # the structure is written and rebuilt in its in-memory order (level by level, run by run, table by table): the order
+    # of runs is the read precedence and the order inside a run is what Run::get_for_key's binary search relies on
+    import re as _re
+    REORDER = _re.compile(r"::(sort\w*|rev|reverse|swap\w*|dedup\w*|retain\w*|filter\w*|skip\w*|take\w*|step_by|chain|zip|rotate_\w+)$")
+    loops = [hir_expr_str(n["iter"], 200) for n in hir_walk(enc["body"]) if n.get("k") == "for"]
+    r.check(loops[:3] == ["self.iter_levels()", "level.iter()", "run.iter()"], "v<N> tables|written level by level, run by run, table by table",
+            "Version::encode_into no longer walks levels / runs / tables directly in their in-memory order: %s" % loops[:3], "", str(loops))
+    for name in ("version::Version::encode_into", "version::Version::from_recovery", "version::recovery::recover"):
+        bad = []
+        for p_, g_ in prog.fns.items():
+            if p_ == name or p_.startswith(name + "::{closure"):
+                for c in g_.calls:
+                    if not REORDER.search(c.sres or ""):
+                        continue
+                    # the blob file list is a map keyed by id: sorting the (id, checksum) pairs is not a reordering of
+                    # the level / run / table structure
+                    if c.arg_tys and "(u64, checksum::Checksum)" in c.arg_tys[0] and "RecoveredTable" not in c.arg_tys[0]:
+                        continue
+                    bad.append(short(c.sres))
+        r.check(not bad, "%s|no reordering or filtering of levels / runs / tables" % name,
+                "%s reorders or filters what it writes / rebuilds (%s): the version file no longer decodes to the published structure"
+                % (short(name), sorted(set(bad))), "", str(sorted(set(bad))))
+    r.floor(14)
 
 
 def c04c(prog, R, rid="C04.c"):
@@ -166,3 +189,71 @@ def c04d(prog, R):
     r.check(ok, "tree::Tree::recover_levels|orphan = directory entry not in the version's table map",
             "a table file can be classified orphaned although the version names it", "")
     r.floor(8)
+
+
+FRESH = ("version::Version::with_new_l0_run", "version::Version::with_merge", "version::Version::with_moved",
+         "version::Version::with_dropped", "version::Version::new")
+
+
+def c04g(prog, R, rid="C04.g"):
+    """Every history entry appended by upgrade_version* carries a version with a fresh id (current id + 1).  persist_version
+    writes `v<id>` and SuperVersions::maintenance unlinks `v<id>` of every entry it pops: two entries with the same id make the
+    version GC delete the file `current` points to, and the next open fails."""
+    from rules.engine import must_pass
+    from rules.props.c07 import store_blocks
+    r = R.rule(rid, "every published history entry has a fresh version id", "P,D")
+    SV = "version::super_version::SuperVersion"
+    tag = ".version:" + SV
+    n = 0
+    seen = set()
+    for c in prog.all_calls(A.UPGRADE, A.UPGRADE_SEQNO):
+        for cb in prog.callbacks(c):
+            cf = prog.fns.get(cb)
+            if cf is None or cb in seen:
+                continue
+            seen.add(cb)
+            n += 1
+            sb = store_blocks(cf, tag)
+            srcs = set()
+            for i in sb:
+                for st in cf.blocks[i]["stmts"]:
+                    if st["k"] == "assign" and "p" in st["to"] and st["to"]["p"][-1] == tag:
+                        srcs |= {o.extra.sres for o in origins(cf, st["rv"].get("op")) if o.kind == "call"}
+                t = cf.blocks[i]["term"]
+                if t["k"] == "call" and t.get("dest") and "p" in t["dest"] and t["dest"]["p"][-1] == tag:
+                    cc = cf.call_at(i)
+                    if cc is not None:
+                        srcs.add(cc.sres)
+            # or the SuperVersion is built as a literal
+            lit = False
+            for b in cf.blocks:
+                for st in b["stmts"]:
+                    if st["k"] == "assign" and st["rv"]["k"] == "agg" and st["rv"].get("adt") == SV:
+                        idx = st["rv"]["fields"].index("version")
+                        got = {o.extra.sres for o in origins(cf, st["rv"]["ops"][idx]) if o.kind == "call"}
+                        lit = bool(got) and got <= set(FRESH)
+            ok = lit or (bool(sb) and must_pass(cf, sb) and bool(srcs) and srcs <= set(FRESH))
+            r.check(ok, "%s|the returned entry's version comes from a with_* / new constructor on every success path" % cb,
+                    "a transition can return an entry whose version (and version id) is the current one: the history gets two entries "
+                    "with the same id, the version file is rewritten in place and later unlinked by the version GC while `current` "
+                    "still names it", cf.where(), str(sorted(short(x) for x in srcs)))
+    if n < 9:
+        r.anchor_missing("transition closures of upgrade_version* (found %d, confirmed 9)" % n)
+    # each constructor numbers the new version self.id + 1
+    VI = "version::VersionInner"
+    for name in FRESH[:4]:
+        g = prog.need(name)
+        ok = False
+        for b in g.blocks:
+            for st in b["stmts"]:
+                if st["k"] == "assign" and st["rv"]["k"] == "agg" and st["rv"].get("adt") == VI:
+                    idx = st["rv"]["fields"].index("id")
+                    for o in origins(g, st["rv"]["ops"][idx]):
+                        if o.kind == "bin" and str(o.what).startswith("Add"):
+                            a_, b2 = o.extra["a"], o.extra["b"]
+                            one = any(x.get("o") == "const" and str(x.get("v")) == "1" for x in (a_, b2))
+                            base = any(any(oo.kind == "param" and oo.what == 1 and "id" in oo.path for oo in origins(g, x)) or
+                                       any(oo.kind == "call" and oo.extra.sres.endswith("Version::id") for oo in origins(g, x)) for x in (a_, b2))
+                            ok = ok or (one and base)
+        r.check(ok, "%s|id = self.id + 1" % name, "the constructor does not number the new version current id + 1", g.where())
+    r.floor(13)
